@@ -84,12 +84,22 @@ impl Relation {
             .into_iter()
             .filter_map(|rwrr| match rwrr.attributes().output() {
                 Property::Public | Property::PrivacyUnitPreserving => {
+                    #[cfg(feature = "qrlew_verif")]
+                    crate::verif::candidate("privacy_unit_preserving", &rwrr);
                     Some((rwrr.rewrite(Rewriter::new(relations)), rwrr.accept(Score)))
                 }
                 _ => None,
             })
+            .inspect(|_candidate| {
+                #[cfg(feature = "qrlew_verif")]
+                crate::verif::rewritten(&_candidate.0, _candidate.1);
+            })
             .max_by(|&(_, x), &(_, y)| x.partial_cmp(&y).unwrap())
             .map(|(relation, _)| relation)
+            .inspect(|_selected| {
+                #[cfg(feature = "qrlew_verif")]
+                crate::verif::selected(_selected);
+            })
             .ok_or_else(|| Error::unreachable_property("privacy_unit_preserving"))
     }
     /// Rewrite the query so that it is differentially private.
@@ -116,12 +126,22 @@ impl Relation {
                 | Property::Published
                 | Property::DifferentiallyPrivate
                 | Property::SyntheticData => {
+                    #[cfg(feature = "qrlew_verif")]
+                    crate::verif::candidate("differential_privacy", &rwrr);
                     Some((rwrr.rewrite(Rewriter::new(relations)), rwrr.accept(Score)))
                 }
                 _ => None,
             })
+            .inspect(|_candidate| {
+                #[cfg(feature = "qrlew_verif")]
+                crate::verif::rewritten(&_candidate.0, _candidate.1);
+            })
             .max_by(|&(_, x), &(_, y)| x.partial_cmp(&y).unwrap())
             .map(|(relation, _)| relation)
+            .inspect(|_selected| {
+                #[cfg(feature = "qrlew_verif")]
+                crate::verif::selected(_selected);
+            })
             .ok_or_else(|| Error::unreachable_property("differential_privacy"))
     }
 }
